@@ -187,12 +187,23 @@ def main(harness, strategy, check, finding_key):
         hseed = int(os.environ.get("VERIF_HSEED", "1"))
         stats = Stats()
         failure = {}
+        # shrinking an expensive subject: after the first failure at most
+        # VERIF_SHRINK_EVALS further cases are executed; later candidates are
+        # waved through, so Hypothesis settles on the best failing case so far
+        shrink_left = [int(os.environ.get("VERIF_SHRINK_EVALS", "60"))]
 
         @seed(hseed)
         @settings(max_examples=n, database=None, deadline=None, report_multiple_bugs=False,
                   suppress_health_check=list(HealthCheck), phases=[Phase.generate, Phase.shrink])
         @given(strategy)
         def prop(case):
+            if failure:
+                if case == failure["case"]:
+                    # same exception object and traceback: Hypothesis identifies a failure by where it was raised
+                    raise failure["exc"].with_traceback(failure["tb"])
+                if shrink_left[0] <= 0:
+                    return
+                shrink_left[0] -= 1
             try:
                 labels, nt = check(case, work)
             except Inconclusive:
@@ -200,6 +211,7 @@ def main(harness, strategy, check, finding_key):
                 return
             except Violation as v:
                 failure["case"], failure["key"], failure["msg"] = case, v.key, v.msg
+                failure["exc"], failure["tb"] = v, v.__traceback__
                 raise
             stats.add(case, labels, nt)
 
